@@ -4,7 +4,7 @@ import itertools
 
 ID = "C17"
 THEOREM_MODULE = "SimVerif.Props.C17"
-THEOREM_MODULES = ["SimVerif.Props.C17", "SimVerif.Tie.Voting", "SimVerif.Props.C17s"]
+THEOREM_MODULES = ["SimVerif.Props.C17", "SimVerif.Tie.Voting", "SimVerif.Props.C17s", "SimVerif.Tie.SortVoting"]
 NONTRIVIAL_FLAGS = {"multi-cand", "truncated", "fallback", "tie", "greedy-suboptimal", "multi", "over-max", "multi-vote-or-dropped"}
 RULE = ("requests `vote topn|best|hung …`: result streams over <=6 queries x <=6 tracks x 0..5 distances per pair on a 1/64 grid (so f32 sums are exact), "
         "None distances mixed in, every N/min_votes/max_distance regime; each base stream is also submitted in several random permutations "
